@@ -7,8 +7,8 @@ its datastore write, Crash at every point, Reopen, and the admission pipeline of
       BasicConnectionGater over a datastore whose writes stop at a gate (apply / fail / crash before / crash
       after), rule lists + raw store + all Intercept* answers over an address-form matrix compared after
       every step, the statement's clauses evaluated from the harness's own ledger of returned calls,
-  (3) walks of the composition instance executed with real swarms over loopback TCP and QUIC in both
-      directions (recording transports and gaters)."""
+  (3) walks of the composition instance executed with real swarms over loopback TCP, QUIC and WebSocket in
+      both directions (recording transports and gaters)."""
 import concurrent.futures as cf
 import os
 
@@ -43,8 +43,8 @@ def exhaustive_instances(ctx):
     """Checked exhaustively with every invariant and action property (ghosts in the state identity)."""
     if ctx.tier == "thorough":
         return [
-            # every rule kind twice, both families, all four subnets: persistence only
-            inst("persist8", ("p2", "p3"), ("a2", "a6"), ("n31", "n8", "n32", "n128")),
+            # both families, all four subnets: persistence only
+            inst("persist7", ("p2",), ("a2", "a6"), ("n31", "n8", "n32", "n128")),
             # calls, faults and attempts from three endpoints over two transports interleaved
             inst("mixed5", ("p2",), ("a2", "a6"), ("n31", "n8"), eps=("e22", "e33", "e66"), tpts=("tcp", "quic")),
         ]
@@ -66,15 +66,15 @@ def replay_instances(ctx):
 
 
 def alias_instance(ctx):
-    """Subnets given with host bits set next to their canonical spelling.  In this instance Durable is
-    violated BY DESIGN (known finding: after a reopen the gater lists the masked network, unblocking that
-    listed value succeeds and changes nothing); the driver requires TLC to find it and the replay to
-    reproduce it on the real gater."""
-    return inst("alias4", (), ("a2",), ("n31", "n31h", "n8h"))
+    """Regression instance for the repaired finding (commit 9a893a1): subnets given with host bits set next to
+    their masked spelling.  Both spellings are ONE rule (Canon): a block given with host bits set is listed (masked),
+    enforced and unblockable by its listed value, before and after a reopen.  Checked exhaustively with every
+    invariant and replayed completely; TLC's former Durable counterexample is the first replayed walk."""
+    return inst("alias4", (), (), ("n31", "n31h", "n8", "n8h"))
 
 
 def net_instance(ctx):
-    tpts = ("tcp", "quic", "ws") if ctx.tier == "thorough" else ("tcp", "quic")
+    tpts = ("tcp", "quic", "ws")
     return inst("net6", ("p2",), ("a2", "a6"), ("n31", "n8", "n128"), eps=("e22", "e33", "e66"),
                 tpts=tpts, faults=("crash",), exclusive=True)
 
@@ -86,22 +86,6 @@ def _exhaustive(args):
     if not r.ok:
         raise MachineryError("design-level failure in C10 %s: %s violated\n%s" % (name, r.violated, r.out[-2500:]))
     return name, r.distinct, r.generated, r.wall
-
-
-def _alias(args):
-    ctx, (name, consts) = args
-    cfg = tlc.subst_cfg("C10_MC.cfg", consts)
-    r = tlc.run(ctx, "C10_MC", "gen_%s_mc.cfg" % name, cfg_text=cfg, workers=1, timeout=600, name="mc" + name)
-    if r.ok:
-        return name, False, r.distinct, r.generated
-    if r.violated != "Durable":
-        raise MachineryError("instance %s: unexpected design-level failure %s\n%s" % (name, r.violated, r.out[-2000:]))
-    # every other invariant and property must hold there
-    cfg = tlc.subst_cfg("C10_MC.cfg", consts, replace=[(INV, INV.replace(" Durable ", " "))])
-    r2 = tlc.run(ctx, "C10_MC", "gen_%s_mc2.cfg" % name, cfg_text=cfg, workers=1, timeout=600, name="mc2" + name)
-    if not r2.ok:
-        raise MachineryError("instance %s: %s violated besides Durable\n%s" % (name, r2.violated, r2.out[-2000:]))
-    return name, True, r2.distinct, r2.generated
 
 
 def _probe(args):
@@ -172,8 +156,11 @@ def _printed(args):
     else:
         n, depth = mode
         walks = g.random_walks(n, depth, seed=ctx.seed)
+    if name.startswith("net") and ctx.tier == "thorough":
+        # the same transitions again along other paths, with other address forms chosen by the harness
+        walks += g.covering_walks(seed=ctx.seed + 104729, max_len=100)
     if name.startswith("alias"):
-        walks = [_scripted(g, ALIAS_SCRIPT)] + walks      # TLC's counterexample of Durable first: a short artefact
+        walks = [_scripted(g, ALIAS_SCRIPT)] + walks      # the history of the repaired finding first: a short artefact
     steps = sum(len(w["steps"]) for w in walks)
     graph.write_behaviours(os.path.join(beh_dir, name + ".jsonl"), walks, hdr)
     return name, r.distinct, r.generated, g.n_edges(), len(walks), steps, kinds, r.wall
@@ -204,7 +191,7 @@ def run(ctx):
         fr = [pr.submit(_printed, (ctx, i, beh_dir, "cover")) for i in rinsts]
         fn = pr.submit(_printed, (ctx, ninst, net_dir, net_mode))
         probe_inst = inst("probe3", ("p2",), ("a2",), ("n31",), eps=("e22", "e23"))
-        fa = pr.submit(_alias, (ctx, ainst))
+        fa = pr.submit(_exhaustive, (ctx, ainst, 1))
         fg = [pr.submit(_probe, (ctx, probe_inst, p, isp)) for p, isp in
               (("ReachMemDiskDiffer", False), ("ReachFreeAfterReopen", False), ("ReachAdmittedWhileSomeRule", True))]
         rres = [f.result() for f in fr]
@@ -218,7 +205,13 @@ def run(ctx):
         # replay while the exhaustive lane may still be running
         res = goenv.run_harness(ctx, PKG, "^TestVerifC10Replay$", inputs=beh_dir, timeout=1500)
         log("C10: replay done at %.1fs" % ctx.wall())
-        net = goenv.run_harness(ctx, PKG, "^TestVerifC10Net$", inputs=net_dir, timeout=1500)
+        try:
+            net = goenv.run_harness(ctx, PKG, "^TestVerifC10Net$", inputs=net_dir, timeout=1500)
+        except MachineryError as e:
+            # real sockets: one more try before calling it a machinery failure
+            log("C10: network composition failed once, retrying: %s" % str(e)[-1500:])
+            ctx.notes.append("network composition needed a second run (first: %s)" % str(e)[-300:])
+            net = goenv.run_harness(ctx, PKG, "^TestVerifC10Net$", inputs=net_dir, timeout=1500)
         log("C10: network composition done at %.1fs" % ctx.wall())
         eres = [f.result() for f in fe]
         log("C10: exhaustive done at %.1fs" % ctx.wall())
@@ -241,18 +234,14 @@ def run(ctx):
         raise MachineryError("replay executed %d distinct transitions of %d" % (res["distinct"], edges_total))
     nx = net.get("extra") or {}
     if not net["mismatches"]:
-        for k in ("attempts_admitted", "attempts_refused", "attempts_out", "attempts_in", "attempts_tcp", "attempts_quic"):
+        for k in ("attempts_admitted", "attempts_refused", "attempts_out", "attempts_in", "attempts_tcp", "attempts_quic",
+                  "attempts_ws", "attempts_form_dns", "attempts_form_mapped", "attempts_refused_at_peerdial",
+                  "attempts_refused_at_addrdial", "attempts_refused_at_accept", "attempts_refused_at_secured-in", "reopens"):
             if not nx.get(k):
                 raise MachineryError("vacuity guard: network composition ran no %s" % k)
 
-    states = sum(r[1] for r in eres) + sum(r[1] for r in rres) + nres[1] + ares[2]
-    trans = sum(r[2] for r in eres) + sum(r[2] for r in rres) + nres[2] + ares[3]
-    alias_cls = "acked-unblock-still-listed:subnet:listed-value-of-hostbits-spelling"
-    reproduced = any(v["cls"] == alias_cls for v in ctx.violations)
-    if ares[1] and not reproduced:
-        ctx.notes.append("instance %s violates Durable in the model (listed value of a host-bits subnet cannot be unblocked after a reopen) but the real gater did not reproduce it" % ares[0])
-    if not ares[1]:
-        ctx.notes.append("instance %s: TLC no longer finds the Durable violation of the host-bits spelling" % ares[0])
+    states = sum(r[1] for r in eres) + sum(r[1] for r in rres) + nres[1] + ares[1]
+    trans = sum(r[2] for r in eres) + sum(r[2] for r in rres) + nres[2] + ares[2]
     log("C10: exhaustive %s; printed %s; net %s; replay %d walks %d steps (%d distinct of %d); net %d walks %d steps %s; L2 divergences %d; guards %s"
         % ([(r[0], r[1], r[2], r[3]) for r in eres], [(r[0], r[1], r[3], r[7]) for r in rres],
            (nres[0], nres[1], nres[3]), res["replayed"], res["steps"], res["distinct"], edges_total,
@@ -269,23 +258,23 @@ def run(ctx):
         replay_extra=res.get("extra"),
         net_instance={"name": nres[0], "states": nres[1], "transitions": nres[3], "walks": nres[4], "steps": nres[5]},
         net_extra=nx, vacuity_probes=guards,
-        alias_instance={"name": ares[0], "durable_violated_in_model": ares[1], "reproduced_on_real_gater": reproduced,
-                        "states": ares[2], "transitions": ares[3]}, divergences_L2=div, notes=ctx.notes[:10], rule=res.get("rule"),
+        alias_regression_instance={"name": ares[0], "states": ares[1], "transitions": ares[2],
+                                   "all_invariants_hold": True}, divergences_L2=div, notes=ctx.notes[:10], rule=res.get("rule"),
         net_rule=net.get("rule"))
     return {"level": "model_checking", "coverage": cov, "assumptions": [
         "bounded instances: <=2 peer rules, 2 address rules (127.0.0.2, ::1), 4 subnets (/8, /31, /32, /128); Block*/Unblock* calls are sequential (one in flight), attempts and crashes interleave with them at the datastore write",
         "a datastore write that returns an error has not been applied; a call that returned an error obliges nothing new, a call interrupted by a crash may or may not have taken effect",
         "the in-memory update and the successful return of a call are one step (no observer can separate them)",
-        "subnets are given as net.ParseCIDR produces them (network number masked), in IPv4, IPv4-mapped and mixed-length forms",
+        "subnets are given as net.ParseCIDR produces them (network number masked) in IPv4, IPv4-mapped and mixed-length forms; the spelling with host bits set is exercised by the regression instance alias4 (both spellings are one rule in the model, as in the code since 9a893a1; the harness ledger keeps obligations per spelling and lets an opposite call on the other spelling make them lapse, so it does not presume the identification); non-contiguous masks are outside the model (BlockSubnet accepts one and the next NewBasicConnectionGater fails on it: observed, not judged)",
         "the gated host's swarm is the one the statement speaks about: a QUIC dialer may see its connection established and then closed with the gated error code; only the gated host's Connected notifications / ConnsToPeer are L1",
         "loopback networking (127.0.0.1-3, ::1) works; a network time-out is a machinery failure, never a verdict",
     ]}
 
 
 MANIFEST = {
-    "technique": "TLA+ spec (C10_Gater.tla) of the gater's persisted and in-memory rule sets, the Block*/Unblock* calls cut at their datastore write, crashes at every point, reopening, and the admission pipeline of a connection attempt; model-checked exhaustively with TLC; every transition of the printed instances replayed on the real BasicConnectionGater over a datastore that can fail or stop the process at any write, with rule lists, raw store and every Intercept* answer over a matrix of address forms compared after each step; walks of the composition instance executed with real swarms over loopback TCP and QUIC in both directions",
+    "technique": "TLA+ spec (C10_Gater.tla) of the gater's persisted and in-memory rule sets, the Block*/Unblock* calls cut at their datastore write, crashes at every point, reopening, and the admission pipeline of a connection attempt; model-checked exhaustively with TLC; every transition of the printed instances replayed on the real BasicConnectionGater over a datastore that can fail or stop the process at any write, with rule lists, raw store and every Intercept* answer over a matrix of address forms compared after each step; walks of the composition instance executed with real swarms over loopback TCP, QUIC and WebSocket in both directions",
     "category": "model_checking",
-    "text": "TLC checks on every reachable state that what the successfully returned calls oblige is on disk at every moment (so at every crash point) and in every running process (Durable), that the datastore write precedes the in-memory update, that an attempt during all of whose consultations one matching rule was in memory is never admitted and never reaches the transport dial, and that refusals happen at accept (address/subnet) or right after the handshake (peer). Covering walks over the complete printed graphs (each source state x each call step x each fault: failed write, crash before/after the write, crash when idle; consultations interleaved with rule changes) drive the real gater; argument forms of the rules (4-/16-byte IPs, IPv4 / IPv4-mapped / mixed CIDRs) vary per call. After each step ~170 address forms (ports and trailing components, ws/quic/webtransport/webrtc, /p2p suffix, circuit via a relay at the address, bare IP, IPv4-mapped IPv6 in three spellings, expanded IPv6, ip6zone, subnet first/last/adjacent addresses, dns/dnsaddr/circuit/unix without IP) are evaluated through every Intercept* function and the statement's clauses are decided from the harness's own ledger (blocked = Block returned success and nothing since). The composition test runs connection attempts between a gated swarm and three remotes (127.0.0.2, 127.0.0.3, ::1) with recording transports, gaters and notifiees.",
-    "note": "Trusted: TLC, the harness ledger and projections (public API only: ListBlocked*, Intercept*), the gate in the datastore wrapper, loopback networking. Disagreement with the model that the ledger does not condemn (rule set while a call is in flight, raw keys, which gate refuses, error classes) is L2 only. WebSocket/WebTransport/WebRTC listeners are not exercised with real sockets (their gating call sites are the shared upgrader listener or transport-specific code that the composition test does not reach). Concurrent Block*/Unblock* calls on the same rule are not modelled.",
+    "text": "TLC checks on every reachable state that what the successfully returned calls oblige is on disk at every moment (so at every crash point) and in every running process (Durable), that the datastore write precedes the in-memory update, that an attempt during all of whose consultations one matching rule was in memory is never admitted and never reaches the transport dial, and that refusals happen at accept (address/subnet) or right after the handshake (peer). Covering walks over the complete printed graphs (each source state x each call step x each fault: failed write, crash before/after the write, crash when idle; consultations interleaved with rule changes) drive the real gater; argument forms of the rules (4-/16-byte IPs, IPv4 / IPv4-mapped / mixed CIDRs) vary per call. After each step ~170 address forms (ports and trailing components, ws/quic/webtransport/webrtc, /p2p suffix, circuit via a relay at the address, bare IP, IPv4-mapped IPv6 in three spellings, expanded IPv6, ip6zone, subnet first/last/adjacent addresses, dns/dnsaddr/circuit/unix without IP) are evaluated through every Intercept* function and the statement's clauses are decided from the harness's own ledger (blocked = Block returned success and nothing since). The composition test covers every transition of an Exclusive instance (64 rule sets x 3 remotes at 127.0.0.2, 127.0.0.3, ::1 x 2 directions x TCP/QUIC/WebSocket, plus restarts of the gater) with real DialPeer calls between a gated swarm and the remotes, with recording transports, gaters and notifiees; outbound addresses also as /p2p-suffixed, /dns4|6 (resolved by a stub resolver) and IPv4-mapped forms.",
+    "note": "Trusted: TLC, the harness ledger and projections (public API only: ListBlocked*, Intercept*), the gate in the datastore wrapper, loopback networking. Disagreement with the model that the ledger does not condemn (rule set while a call is in flight, raw keys, which gate refuses, error classes, refusal of something never blocked) is L2 only. Real sockets: TCP, QUIC and WebSocket (WebSocket inbound only from ::1, its dialer cannot be bound to a source address); WebTransport and WebRTC listeners (own gating call sites) are not exercised. Concurrent Block*/Unblock* calls on the same rule are not modelled (two overlapping calls on one rule can leave memory and datastore in different orders). Regression instance alias4: a subnet blocked with host bits set is listed masked, enforced and unblockable by its listed value before and after a reopen (finding fixed by 9a893a1; the former counterexample is the first replayed walk).",
     "engines": [{"name": "C10_Gater", "path": "spec/C10_Gater.tla", "serves_properties": ["C10"], "kind_free_text": "TLA+ spec + TLC exhaustive + full-transition replay with fault injection + real-swarm composition"}],
 }
